@@ -364,17 +364,18 @@ def rule_skip(ctx: Ctx) -> RuleReport:
         if fi.qual == "_process_7z_files_sequential":
             # the filter is applied where the work list is built
             target_fi = ctx.p.func(ARCH, "_extract_from_7z_optimized")
-            apps = [x for x in calls_in(target_fi) if isinstance(x.func, ast.Attribute) and x.func.attr == "append" and norm(x.func.value) == "files_to_process"]
+            apps = [x for x in calls_in(target_fi) if isinstance(x.func, ast.Attribute) and x.func.attr == "append" and isinstance(x.func.value, ast.Name) and x.args and isinstance(x.args[0], ast.Tuple) and len(x.args[0].elts) == 3]
             if not apps:
                 raise AnalysisError("C09-SKIP: 7z work-list construction not recognised")
             target = apps[0]
         zip_two_phase = fi.qual == "_extract_from_zip_optimized"
         if zip_two_phase:
-            apps = [x for x in calls_in(fi) if isinstance(x.func, ast.Attribute) and x.func.attr == "append" and norm(x.func.value) == "files_to_process"]
+            apps = [x for x in calls_in(fi) if isinstance(x.func, ast.Attribute) and x.func.attr == "append" and isinstance(x.func.value, ast.Name) and x.args and isinstance(x.args[0], ast.Tuple) and len(x.args[0].elts) == 3]
             if apps:
                 conds_a, opq_a, _ = path_conditions(fi.node, apps[0], terminals=("continue", "return", "break"))
                 cs = {str(x) for x in conds_a}
-                if "not _should_skip_file(filename, basename)" in cs:
+                el = apps[0].args[0].elts
+                if f"not _should_skip_file({norm(el[1])}, {norm(el[2])})" in cs:
                     rep.ok({"zip": "work list filtered by _should_skip_file"})
                 else:
                     rep.fail(Finding("C09-SKIP", ARCH, fi.qual, short(apps[0]), "ZIP members enter the work list without the skip filter", line=apps[0].lineno))
